@@ -79,7 +79,6 @@ SECTIONS {
   . = ALIGN(4096);
   .data : { *(.data .data.*) KEEP(*(.init_array)) }
   .bss : { *(.bss .bss.*) }
-  my_end = .;
 }
 """
 VER = "V1 { global: f1; f2; extern \"C++\" { \"inl(int)\"; }; local: *; };\nV2 { global: cpp_*; } V1;\n"
@@ -595,18 +594,31 @@ def materialise(ctx, base, case, tag):
     return d
 
 
-def run_and_classify(d, args, fork=False, threads=1):
+HANG_CONFIRMED = set()
+
+
+def run_and_classify(d, args, fork=False, threads=1, kind="input"):
     tools.fresh(os.path.join(d, "out.bin"))
     res = run_wild(d, list(args) + ["-o", "out.bin"], fork=fork, threads=threads)
     v, sig, detail = classify(res)
     if v == "timeout":
-        outs = [res]
-        for _ in range(2):
-            r2 = run_wild(d, list(args) + ["-o", "out.bin"], fork=fork, threads=threads)
-            outs.append(r2)
-            if not r2.timed_out:
-                return ("inconclusive", None, "single timeout"), res
-        return ("violation", "hang", "3 runs exceeded the 60 s watchdog"), res
+        hsig = "hang:" + kind
+        if hsig in HANG_CONFIRMED:
+            return ("inconclusive", None, "timeout of a kind already confirmed as a hang in this run (not re-run)"), res
+        # two more runs (in parallel, separate output names); all three must exceed the watchdog
+        outs = [None, None]
+
+        def again(k):
+            outs[k] = run_wild(d, list(args) + ["-o", f"out{k}.bin"], fork=fork, threads=threads)
+        ts = [threading.Thread(target=again, args=(k,)) for k in range(2)]
+        for t in ts:
+            t.start()
+        for t in ts:
+            t.join()
+        if all(o.timed_out for o in outs):
+            HANG_CONFIRMED.add(hsig)
+            return ("violation", hsig, "3 runs exceeded the 60 s watchdog (input < 1 MB)"), res
+        return ("inconclusive", None, "single timeout"), res
     return (v, sig, detail), res
 
 
@@ -670,6 +682,7 @@ def pin(case, sig, detail):
     for n, b in case["files"].items():
         write(os.path.join(d, n), b)
     json.dump({"args": case["args"], "expect": sig, "mutation": case["cls"], "base": case["cmd"],
+               "kind": sig.split(":", 1)[1] if sig.startswith("hang:") else "input",
                "stderr_head": detail[:600]}, open(os.path.join(d, "args.json"), "w"), indent=1)
 
 
@@ -681,11 +694,14 @@ def report(ctx, base, case, sig, detail, cid, d):
     ctx.note_set("crash-classes:" + sig, case["cls"])
     if not first:
         return
-    small = minimise(ctx, base, case, sig, cid) if sig != "hang" else case
-    md = materialise(ctx, base, small, f"{cid}-final")
-    (v, s2, det2), res = run_and_classify(md, small["args"])
-    if s2 != sig:
+    if sig.startswith("hang:"):
         small, md, det2 = case, d, detail
+    else:
+        small = minimise(ctx, base, case, sig, cid)
+        md = materialise(ctx, base, small, f"{cid}-final")
+        (v, s2, det2), res = run_and_classify(md, small["args"])
+        if s2 != sig:
+            small, md, det2 = case, d, detail
     if os.environ.get("VERIF_C22_PIN") == "1":
         pin(small, sig, det2)
     head = "\n".join(det2.strip().split("\n")[:3])[:300]
@@ -697,18 +713,32 @@ def report(ctx, base, case, sig, detail, cid, d):
 
 def one_case(ctx, base, cmds, options, i):
     r = rng("C22", ctx.seed, i)
-    case = gen_case(r, base, cmds, options)
+    case = None
+    for _ in range(5):
+        try:
+            case = gen_case(r, base, cmds, options)
+            break
+        except (ValueError, IndexError, struct.error):
+            ctx.note("generator-retry")
+    if case is None:
+        ctx.inconclusive("generator could not produce a case")
+        return
     d = materialise(ctx, base, case, i)
     fork = r.random() < 0.1
     threads = r.choice([2, 2, 2, 1, None])
-    (v, sig, detail), res = run_and_classify(d, case["args"], fork=fork, threads=threads)
+    kind = case["cls"].split("+")[0].split(":")[0].replace("text.", "")
+    kind = {"args": "arguments"}.get(kind, kind if kind in ("version-script", "linker-script", "export-list", "response-file")
+                                     else "archive" if kind.startswith("ar.") else "shared-object" if kind == "so" else "object")
+    (v, sig, detail), res = run_and_classify(d, case["args"], fork=fork, threads=threads, kind=kind)
     ctx.note("mutation:" + case["cls"].split(":")[0].split("+")[0])
     ctx.note("mode:" + ("fork" if fork else "no-fork"))
     if v == "inconclusive":
-        ctx.inconclusive("single timeout")
+        ctx.inconclusive(detail)
     elif v == "violation":
         # canonical identity: single-threaded, no fork (several threads can panic at different sites)
-        (v1, sig1, detail1), _ = run_and_classify(d, case["args"])
+        (v1, sig1, detail1), _ = (v, sig, detail), None
+        if not sig.startswith("hang:"):
+            (v1, sig1, detail1), _ = run_and_classify(d, case["args"], kind=kind)
         if v1 == "violation":
             sig, detail = sig1, detail1
         else:
@@ -733,7 +763,7 @@ def replay_pinned(ctx, base, name):
     files = {n: read(os.path.join(pd, n)) for n in os.listdir(pd) if n != "args.json"}
     case = dict(cmd=meta.get("base", "?"), args=meta["args"], files=files, cls=meta.get("mutation", "pinned"))
     d = materialise(ctx, base, case, "pin-" + name)
-    (v, sig, detail), res = run_and_classify(d, case["args"])
+    (v, sig, detail), res = run_and_classify(d, case["args"], kind=meta.get("kind", "input"))
     ctx.note("pinned-replayed")
     if v == "violation":
         with _lock:
